@@ -175,11 +175,16 @@ def r1(ctx, R):
         R.bad(dp, dp.node, "ItemSpaceParent.data no longer returns param_spaces", stmt="data property")
     R.slot("container_table", table)
     # get_value_from_key of ItemSpaceParent reads the same container
-    gv = ctx.func("ItemSpaceParent.get_value_from_key")
-    rr = q.returns(gv)
-    R.inst("ItemSpaceParent.get_value_from_key reads param_spaces[key]")
-    if not (len(rr) == 1 and norm(rr[0].value) == "self.param_spaces[key].interface"):
-        R.bad(gv, gv.node, "get_value_from_key does not return the held instance", stmt="get_value_from_key")
+    # siblings: both get_value_from_key go through the executor (hit: held object, miss: (re)computed) -
+    # recalculation after an edit calls them for elements that the edit has just discarded
+    EV = "self.system.executor.eval_node(key_to_node(self, key))"
+    for spec, want in (("CellsImpl.get_value_from_key", EV), ("ItemSpaceParent.get_value_from_key", EV + ".interface")):
+        gv = ctx.func(spec)
+        rr = q.returns(gv)
+        R.inst("%s evaluates the element's node through the executor" % spec)
+        if not (len(rr) == 1 and q.rnorm(gv, rr[0].value) == want):
+            R.bad(gv, gv.node, "get_value_from_key does not evaluate the element: a held element is looked up only (KeyError "
+                               "for an element that was just discarded), or the cache is bypassed", stmt="get_value_from_key")
 
 
 @rule("C01.R2", "C01", "FLOW", "result stored under the key that was looked up", min_instances=8, also=("C07",))
